@@ -12,7 +12,7 @@ LEVEL_TEXT = ("The hook log of the Lean mirror (kind, node, argument and a snaps
 LEVEL_NOTE = ("Trusted: Lean kernel, standard axioms; the mirror; hooks observe but do not mutate. The log during the restore "
               "of a refused or vetoed children assignment is not specified by the property and not compared against the spec "
               "(it is compared against the mirror)."
-              " Hooks that make structural calls of their own are outside the model (its hooks observe or raise); one class of them - a hook that detaches ANOTHER node while the call is in progress - is exercised in the correspondence run against the mirror run on the nested call followed by the outer one (driver field pre_ops); for a parent assignment this equivalence is proved of the extended mirror (Model/ForestR.lean, C02r.setParentR_eq_seq, inv_setParentR); for children assignment/deletion it is searched, not proved.")
+              " Hooks that make structural calls of their own are outside the model (its hooks observe or raise); one class of them - a hook that detaches ANOTHER node while the call is in progress - is exercised in the correspondence run against the mirror run on the nested call followed by the outer one (driver field pre_ops); for a parent assignment this equivalence is proved of the extended mirror (Model/ForestR.lean, C02r.setParentR_eq_seq, inv_setParentR); for the children deleter as well (C02s.delChildrenR_eq_seq, inv_delChildrenR); for the attach phase of a children assignment it is searched, not proved.")
 THEOREMS = [
     ("Anytree.Props.C16.log_setParent", "full"),
     ("Anytree.Props.C16.log_delChildren", "full"),
